@@ -174,6 +174,27 @@ impl Lift for SubWordValue {
 
             let value = value.clone().transform_data(insert_sub_words);
 
+            // Sub-words of sub-words accumulate their offsets when they are turned into a layout, so
+            // the position of this one relative to the outermost word must stay inside the word too
+            let mut base_offset = 0usize;
+            let mut inner = &value;
+            while let RSVD::SubWord {
+                value: inner_value,
+                offset: inner_offset,
+                ..
+            } = inner.data()
+            {
+                base_offset = base_offset.saturating_add(*inner_offset);
+                inner = inner_value;
+            }
+            match base_offset
+                .checked_add(offset + shift)
+                .and_then(|start| start.checked_add(length))
+            {
+                Some(end) if end <= WORD_SIZE_BITS => (),
+                _ => return None,
+            }
+
             let value = match value.data() {
                 RSVD::SubWord {
                     offset: i_ofs,
